@@ -12,6 +12,8 @@ fields("xandikos.store.git.GitStore", {
     "ghost_M": "dict[str,str]",
     "ghost_locked": "bool",
     "ghost_cfg": "opt[str]",
+    "ghost_subdirs": "set[str]",
+    "path": "str",
     "ref": "bytes",
 })
 
